@@ -17,6 +17,7 @@ import (
 
 func init() {
 	vHarnesses["VerifH_C10_pebble"] = VerifH_C10_pebble
+	vHarnesses["VerifH_C10_pebble_volume"] = VerifH_C10_pebble_volume
 }
 
 // ---- contract stub of pebble.DB / Iterator / Batch ----
@@ -182,4 +183,9 @@ func c10Open() kvi.KVInterface {
 // answers like the sorted-map model.
 func VerifH_C10_pebble() {
 	c10Run(c10Open(), "pebble")
+}
+
+// VerifH_C10_pebble_volume: DeletePrefix over key counts around its block size.
+func VerifH_C10_pebble_volume() {
+	c10Volume(c10Open(), "pebble")
 }
